@@ -694,6 +694,38 @@ func c16Case(in c16In) Case {
 	}
 	coq := fmt.Sprintf("c %s \"%s\" %s %s %s %s %s %s %s", CoqList(tbl), in.Line, CoqList(ix),
 		q(out.Dot), q(out.Hash), q(out.Both), B(out.Oracle[0]), B(out.Oracle[1]), B(out.Oracle[2]))
+	if len(in.Indices) > 64 { // wide match: long strings in chunks, the index vector as text (see Corr/C16Case.v cw)
+		chunks := func(h string) string {
+			var ps []string
+			for len(h) > 1500 {
+				ps = append(ps, "\""+h[:1500]+"\"")
+				h = h[1500:]
+			}
+			ps = append(ps, "\""+h+"\"")
+			return "[" + strings.Join(ps, ";") + "]"
+		}
+		qc := func(xs []string) string {
+			ps := make([]string, len(xs))
+			for i, x := range xs {
+				ps[i] = chunks(x)
+			}
+			return "[" + strings.Join(ps, ";") + "]"
+		}
+		var ixs []string
+		for lo := 0; lo < len(in.Indices); lo += 200 {
+			hi := lo + 200
+			if hi > len(in.Indices) {
+				hi = len(in.Indices)
+			}
+			nums := make([]string, hi-lo)
+			for i, x := range in.Indices[lo:hi] {
+				nums[i] = strconv.Itoa(x)
+			}
+			ixs = append(ixs, "\""+strings.Join(nums, ",")+"\"")
+		}
+		coq = fmt.Sprintf("cw %s %s %s %s %s %s %s %s %s", CoqList(tbl), chunks(in.Line), CoqList(ixs),
+			qc(out.Dot), qc(out.Hash), qc(out.Both), B(out.Oracle[0]), B(out.Oracle[1]), B(out.Oracle[2]))
+	}
 	if in.Via == "cli" {
 		kv := make([]string, len(in.Keys))
 		for i, k := range in.Keys {
@@ -813,6 +845,15 @@ func classify(in c16In) ([]string, bool) {
 	if unmatched {
 		tagset["group:unmatched"] = true
 	}
+	switch g := len(in.Indices)/2 - 1; {
+	case in.Via == "cli":
+	case g >= 1000:
+		tagset["width:groups>=1000(4-digit names)"] = true
+	case g >= 100:
+		tagset["width:groups>=100(3-digit names)"] = true
+	case g >= 10:
+		tagset["width:groups>=10(2-digit names)"] = true
+	}
 	if len(in.Indices)%2 == 1 {
 		tagset["indices:odd-length"] = true
 	}
@@ -833,7 +874,7 @@ func classify(in c16In) ([]string, bool) {
 	for t := range tagset {
 		tags = append(tags, t)
 		if strings.HasPrefix(t, "text:") || strings.HasPrefix(t, "name:") || strings.HasPrefix(t, "group:") || t == "kf:C16-member-order" ||
-			t == "pipeline:same-line-number-back-to-back" || t == "pipeline:line-in-several-places" || strings.HasPrefix(t, "stateful:") {
+			t == "pipeline:same-line-number-back-to-back" || t == "pipeline:line-in-several-places" || strings.HasPrefix(t, "stateful:") || strings.HasPrefix(t, "width:") {
 			nontrivial = true
 		}
 	}
@@ -1328,6 +1369,30 @@ func c16Gen(r *Rng, n int, tier string) []Case {
 			}
 		}
 	}
+	// width: every boundary number of capture groups, unnamed and named (member names itoa(i) up to four digits)
+	cleanMode, noCtrl = true, true
+	for _, w := range wideWidths {
+		for _, named := range []bool{false, true} {
+			if named && w == 0 {
+				continue
+			}
+			cleanMode = !(named && w%2 == 0) // even widths also with four names (first, mid, g100, last)
+			cases = append(cases, c16Case(genWide(r, w, named)))
+		}
+	}
+	cleanMode = true
+	for _, wr := range []struct {
+		via string
+		n   int
+	}{{"regex", 130}, {"dissect", 105}, {"regex", 100}, {"dissect", 99}} {
+		if in, ok := genWideReal(r, wr.via, wr.n); ok {
+			cases = append(cases, c16Case(in))
+		}
+	}
+	for _, in := range wideSeqScenario(r) {
+		cases = append(cases, c16Case(in))
+	}
+	cleanMode, noCtrl = false, false
 	// one compiled expression over many matches: sequences (Workers: 1) and concurrent workers
 	nseq, nconc := 8, 3
 	if tier == "thorough" {
@@ -1358,6 +1423,10 @@ func c16Gen(r *Rng, n int, tier string) []Case {
 					cases = append(cases, c16Case(pin))
 				}
 			}
+			continue
+		}
+		if r.Chance(1, 60) { // a wide match of a boundary width
+			cases = append(cases, c16Case(genWide(r, Pick(r, wideWidths[:11]), r.Bool())))
 			continue
 		}
 		switch x := r.Intn(12); {
@@ -1395,6 +1464,7 @@ func main() {
 		Header: "From Coq Require Import List NArith ZArith String.\nFrom RareV Require Import Corr.C16Case.\nImport ListNotations.\nOpen Scope Z_scope. Open Scope string_scope.\n",
 		Rule: "fixed part: every byte value 0..255 alone in a named group and embedded in a numbered group; every numeric shape (007, 1., .5, -1, 1e5, 00.1, -0, +1, ...) and boolean shape (ASCII case variants; near-misses that are equal only under Unicode folding or not at all: U+017F long s, Kelvin sign U+212A, full-width letters, combining marks, look-alikes) alone under 0/1/2 names; 0..4 names over the same groups. " +
 			"pipeline part (8 fixed-shape scenarios, then about 1/6 of the seeded cases): 2..4 sources whose line numbers all start at 1 (one line each / one-line batches interleaved round robin / only first lines match / free; lines repeated across sources) are pushed through ONE extractor.New with a real regexp matcher and a JSON view as the expression, with Workers 1 and 2..4, twice each, either as scripted InputBatches in a generated interleaving or as temp files under $VERIF_WORK read by batchers.OpenFilesToChan; every emitted match is grouped by its line and each distinct matching line is one case: all texts ever rendered for that line (whatever was rendered before it) must be the one text of its own captures. " +
+			"width part: scripted matches with 0, 1, 9, 10, 11, 99, 100, 101, 110, 130, 450 and 1000 capture groups (fields of words, numbers, empty texts, unmatched groups), unnamed and named (names on the last / first / middle / 100th group), a regexp with 130 and 100 groups and a dissect pattern with 105 and 99 tokens, and one sequence scenario over lines of width 0..450 with {json <view> <index>} queries for the indices 0, 9, 10, 11, 99, 100, 101, 110, 129, 449, 450: the member name of group i is its decimal numeral for every i. " +
 			"stateful part (8 sequence + 3 concurrent scenarios in quick, 60 + 12 in thorough; one case per distinct line): {.}, {#}, {.#} and {json <view> <member>} queries are each compiled ONCE, optimised and unoptimised, and evaluated (inside an extractor.IgnoreSet probe, i.e. on the workers' real expression contexts, besides the extractor's own shared key builder) over 5..9 different matches of one scripted matcher — an all-empty probe-like context first, different group counts, unmatched groups, lines sharing the text of group 0, texts needing escapes followed by plain ones, adjacent repeats — either as one sequence with Workers 1 (every evaluation also compared with a fresh compile) or from 4..8 workers at once behind a start barrier, 2500 evaluations of every expression per worker (every 16th compared with a fresh compile); all texts ever produced for a line must be the one text of that line alone, and every query must give the member's text. " +
 			"seeded part: 1/6 `rare expression -r -n -d ... -k k=v` run in-process through cmd.GetSupportedCommands (0..4 data, 0..4 keys, the -k order rotated between evaluations; no NUL, no comma, no '=' in keys, valid UTF-8 only, no surrounding white space: what the flag library passes on unchanged); of the rest 60% scripted matcher (0..5 groups with nested/overlapping/empty/unmatched spans, 0..4 names incl. digits-only, duplicate group, out-of-range index, names needing escapes), 20% real regexp ((?P<name>...) fields separated by 0x1e, optional groups), 20% real dissect (arbitrary token names). " +
 			"group texts: numeric shapes, boolean shapes, log-like words, raw random bytes, digit noise, words mixed with quotes/backslashes/control characters/non-ASCII/invalid UTF-8. " +
